@@ -5,7 +5,8 @@
 (*  [ev |-> "start", run, kind, frs]            a new client, a new stream   *)
 (*  [ev |-> "step", run, n, out]                n more bytes arrived; `out`  *)
 (*                                              = messages returned (text)   *)
-(*  [ev |-> "net", run, msgs, adsb, commb]      NetSource: handed messages,  *)
+(*  [ev |-> "net", run, src, msgs, adsb, commb] NetSource / RtlSdrSource:    *)
+(*                                              handed messages,             *)
 (*                                              everything forwarded + local *)
 EXTENDS Stream, TLC, Json, IOUtils
 
@@ -44,7 +45,7 @@ Next ==
                                     ELSE "framing_message_corrupted_lost_or_duplicated"))
                 /\ UNCHANGED <<kind, frs>>
        [] e.ev = "net" ->
-            /\ (IF NetOK(e) THEN TRUE ELSE Reject(e, "netsource_forwarding"))
+            /\ (IF NetOK(e) THEN TRUE ELSE Reject(e, IF e.src = "rtl" THEN "drift:rtlsdr_source_forwarding" ELSE "netsource_forwarding"))
             /\ UNCHANGED <<kind, frs, p, out, failed>>
 
 Done == PrintT(<<"DONE", Len(Events), TLCGet("stats").diameter, TLCGet(1)>>)
